@@ -203,8 +203,22 @@ func cmdCheck(args []string) int {
 	// every obligation of the selected functions is solved (not only the ones tagged with this property): goals
 	// are assumed once asserted, so an unproved obligation of another property must be known in order not to
 	// let it hide a failure of this property's obligations further down the same path (recheckAfterFailures)
-	stats, _ := solveResults(results, nil, work, timeout, runtime.NumCPU(), thorough)
+	// quick and thorough discharge the obligations the same way (incremental z3 5.1 sessions, then the
+	// three-solver portfolio for what a session leaves open); thorough gives the portfolio 60 s instead of 10 s
+	stats, _ := solveResults(results, nil, work, timeout, runtime.NumCPU(), false)
 	agg := aggregate(obls)
+	// thorough, in addition: an independent second opinion on one instance of every named obligation by the
+	// two other solvers (a definite "sat" against z3 5.1's "unsat" is a disagreement and makes the
+	// obligation undecided; time-outs of the older solvers are counted, not held against the proof)
+	var cross *crossStats
+	if thorough {
+		cross = crossCheck(agg, work, runtime.NumCPU())
+		for _, a := range agg {
+			if cross.DisagreeOn[a.Name] != "" && a.Status == "proved" {
+				a.Status, a.Output, a.Solver = "error", cross.DisagreeOn[a.Name], "disagreement"
+			}
+		}
+	}
 	ledger := loadLedger(filepath.Join(*verif, "ledger.json"))
 	findings := loadFindings(filepath.Join(*verif, "known_findings.txt"))
 	hashes := map[string]string{}
@@ -399,6 +413,22 @@ func cmdCheck(args []string) int {
 		"unchecked_arithmetic_in":  mathFns,
 		"explanation": fmt.Sprintf("contract-based deductive verification of the real code: %d named obligations (%d per-path instances) generated from go/ssa of /repo's working tree for %d functions under contract; %d discharged (unsat of the negated VC), %d undecided, %d known findings, %d violations",
 			len(agg), len(obls), len(names), discharged, len(undecided), len(known), violations),
+	}
+	if cross != nil {
+		cov["cross_solver_check"] = map[string]interface{}{
+			"what":          "one instance of every named obligation re-run standalone on z3 4.8.12 and cvc5 1.0.3 (5 s each)",
+			"obligations":   cross.Checked,
+			"confirmed_by":  cross.Confirmed,
+			"no_answer":     cross.NoAnswer,
+			"disagreements": cross.Disagree,
+		}
+	}
+	if thorough {
+		st := selfTest(*verif, *repo, prop, work)
+		cov["must_fail_corpus"] = st
+		for _, l := range st.Lines {
+			fmt.Println(l)
+		}
 	}
 	if brun.Ran {
 		cov["bounded"] = map[string]interface{}{
